@@ -614,7 +614,7 @@ func chanMain(c Config, emit func(*Rep)) {
 	yieldTrace = make([]int32, 1<<16)
 	nscen, reps := 60, 20
 	if c.Tier == "thorough" {
-		nscen, reps = 400, 100
+		nscen, reps = 240, 60
 	}
 	if v := os.Getenv("VERIF_SCEN"); v != "" {
 		fmt.Sscan(v, &nscen)
